@@ -493,6 +493,8 @@ def candidates(cls):
         a = inspect.getattr_static(cls, name)
         if a.fdel is not None and name not in SKIP_MEMBERS:
             out.append(("del", name, "del obj.%s" % name, None))
+        if name not in SKIP_MEMBERS:
+            out.append(("get", name, "read obj.%s" % name, None))      # reading is an operation too
     for name in setters:
         if name in SKIP_MEMBERS:
             continue
@@ -703,6 +705,10 @@ class Sweep:
                 setattr(o, member, v)
             elif kind == "del":
                 delattr(o, member)
+            elif kind == "get":
+                v = getattr(o, member)
+                if inspect.isgenerator(v):
+                    list(v)
             else:
                 args, kw = builder(self.f, o)
                 shown = {"args": _show(args), "kwargs": _show(kw)} if kw else _show(args)
@@ -731,7 +737,8 @@ class Sweep:
             # what the call did to the stored stamps (for the comparison with the model's table of touch states)
             me = [k for k, (e, _) in enumerate(self.watch.objs) if e["addr"] is not None and e["addr"] == obj.get("addr")]
             self.records.append({
-                "cls": obj["cls"].split("[")[0], "member": member + ("__deleter" if kind == "del" else ""),
+                "cls": obj["cls"].split("[")[0],
+                "member": member + {"del": "__deleter", "get": "__getter"}.get(kind, ""),
                 "kind": kind, "accepted": ok, "on": path_text(obj["path"]), "recipe": label, "shown": shown,
                 "variant": self.variant, "clock": self.clock.t,
                 "changed": [[path_text(self.watch.objs[k][0]["path"]), self.watch.objs[k][0]["cls"], attr, a[i]]
@@ -748,6 +755,8 @@ class Sweep:
         if before == now:
             return fails
         forced = {"force_created_at": 0, "force_updated_at": 1}.get(entry["member"]) if entry["kind"] == "call" else None
+        if entry["kind"] == "get":
+            entry = dict(entry, member="%s (read)" % entry["member"])
         for (e, _), b, a in zip(self.watch.objs, before, now):
             if a == b:
                 continue
@@ -854,9 +863,9 @@ def run(ctx, rng, share=1.0, pristine=False, variants=None, stop_at_first=False,
                     continue
                 cands = candidates(cls)
                 rng.shuffle(cands)
-                methods = [c for c in cands if c[0] == "call" and not _destructive(c[1])]
+                methods = [c for c in cands if c[0] in ("call", "get") and not _destructive(c[1])]
                 setters = [c for c in cands if c[0] == "set"]
-                last = [c for c in cands if c[0] == "call" and _destructive(c[1])]
+                last = [c for c in cands if c[0] == "del" or (c[0] == "call" and _destructive(c[1]))]
                 # methods on the state the scene gives the object, the setters, the methods again (on what the setters
                 # left: units / dimensions / links cleared or replaced), then what takes things away
                 for c in methods + setters + (methods if second_pass and variant != ON else []) + last:
